@@ -2113,6 +2113,10 @@ func (l *LanguageServer) handleTextDocumentFormatting(
 }
 
 func (l *LanguageServer) handleWorkspaceDidCreateFiles(params types.WorkspaceDidCreateFilesParams) (any, error) {
+	if len(params.Files) == 0 {
+		return struct{}{}, nil
+	}
+
 	if l.ignoreURI(params.Files[0].URI) {
 		return struct{}{}, nil
 	}
@@ -2143,6 +2147,10 @@ func (l *LanguageServer) handleWorkspaceDidDeleteFiles(
 	ctx context.Context,
 	params types.WorkspaceDidDeleteFilesParams,
 ) (any, error) {
+	if len(params.Files) == 0 {
+		return struct{}{}, nil
+	}
+
 	if l.ignoreURI(params.Files[0].URI) {
 		return struct{}{}, nil
 	}
